@@ -159,3 +159,65 @@ func VerifC11_Required() {
 		vReach("supplied")
 	}
 }
+
+// Bundling with pass-through: the help letter or the letter of the required
+// option counts wherever it stands in a bundle, also behind a letter that is
+// not declared.
+func VerifC11_Bundles() {
+	vNativeReset()
+	um := vInt("um", 1, 2)
+	shape := vInt("shape", 0, 4)
+	val := positional("val", "c", "help")
+	ran := ""
+	opt := New()
+	opt.SetMode(Bundling)
+	setUnknown(opt, um)
+	target := opt.String("required", "", opt.Required("required is needed"), opt.Alias("r"))
+	cmd := opt.NewCommand("c", "a command")
+	cmd.SetCommandFn(func(ctx context.Context, o *GetOpt, a []string) error { ran += "c;"; return nil })
+	opt.HelpCommand("help", opt.Alias("h"))
+	var args []string
+	wantHelp, wantRun := false, false
+	switch shape {
+	case 0:
+		args, wantHelp = []string{"c", "-xh"}, true
+	case 1:
+		args, wantHelp = []string{"c", "-hx"}, true
+	case 2:
+		args, wantRun = []string{"c", "-xr", val}, true
+	case 3:
+		args, wantRun = []string{"c", "-r", val, "-x"}, true
+	case 4:
+		args = []string{"c", "-x"} // neither: the missing required option is reported
+	}
+	vPhase("run")
+	remaining, err := opt.Parse(args)
+	var derr error
+	if err == nil {
+		derr = opt.Dispatch(context.Background(), remaining)
+	}
+	written := vWritten("Writer")
+	vObserve("err", err)
+	vObserve("derr", derr)
+	vObserve("ran", ran)
+	final := err
+	if final == nil {
+		final = derr
+	}
+	switch {
+	case wantHelp:
+		vAssert("bundle/help-called", errors.Is(final, ErrorHelpCalled))
+		vAssert("bundle/help-nothing-ran", ran == "")
+		vAssert("bundle/help-text-written", strings.Contains(written, "SYNOPSIS"))
+		vReach("help")
+	case wantRun:
+		vAssert("bundle/supplied-no-error", final == nil)
+		vAssert("bundle/supplied-value", *target == val)
+		vAssert("bundle/supplied-ran", ran == "c;")
+		vReach("supplied")
+	default:
+		vAssert("bundle/missing-error", final != nil && errors.Is(final, ErrorParsing))
+		vAssert("bundle/missing-nothing-ran", ran == "")
+		vReach("missing")
+	}
+}
